@@ -345,3 +345,92 @@ func vfhC04Scan() {
 	vfAssert(ng.Scan(wkb) == nil && ng.Valid && vfGeomBits(ng.Geometry, src), "NullGeometry round trips")
 	vfReach("end")
 }
+
+func init() {
+	vfHarnesses["C04_scan_empties"] = vfhC04ScanEmpties
+}
+
+// Scan of the seven concrete types on EMPTY geometries of every type and
+// coordinate type (and collections holding an empty member): accepted exactly
+// when the type matches, the destination - zero or already holding something -
+// becomes the scanned geometry with its coordinate type and member structure.
+func vfhC04ScanEmpties() {
+	srcs := []string{"POINT Z EMPTY", "LINESTRING Z EMPTY", "POLYGON M EMPTY", "MULTIPOINT ZM EMPTY", "MULTIPOINT(EMPTY)",
+		"MULTILINESTRING Z EMPTY", "MULTILINESTRING(EMPTY)", "MULTIPOLYGON M EMPTY", "GEOMETRYCOLLECTION(POINT EMPTY)", "GEOMETRYCOLLECTION ZM EMPTY", "POINT EMPTY"}
+	src, err := UnmarshalWKT(srcs[vfInt("src", 0, len(srcs)-1)])
+	vfAssert(err == nil, "source parses")
+	v, err := src.Value()
+	vfAssert(err == nil, "Value succeeds")
+	wkb := v.([]byte)
+	dirty := vfBool("dirty-destination")
+	fill := func(wkt string) Geometry {
+		if !dirty {
+			return Geometry{}
+		}
+		g, err := UnmarshalWKT(wkt)
+		vfAssert(err == nil, "filler parses")
+		return g
+	}
+	var got Geometry
+	var scanErr error
+	dst := GeometryType(vfInt("destination", 0, 6))
+	switch dst {
+	case TypePoint:
+		d := NewPointXY(1, 2)
+		if !dirty {
+			d = Point{}
+		}
+		scanErr = d.Scan(wkb)
+		got = d.AsGeometry()
+	case TypeLineString:
+		var d LineString
+		if dirty {
+			d = fill("LINESTRING(0 0,1 1)").MustAsLineString()
+		}
+		scanErr = d.Scan(wkb)
+		got = d.AsGeometry()
+	case TypePolygon:
+		var d Polygon
+		if dirty {
+			d = fill("POLYGON((0 0,0 1,1 0,0 0))").MustAsPolygon()
+		}
+		scanErr = d.Scan(wkb)
+		got = d.AsGeometry()
+	case TypeMultiPoint:
+		var d MultiPoint
+		if dirty {
+			d = fill("MULTIPOINT(0 0,1 1)").MustAsMultiPoint()
+		}
+		scanErr = d.Scan(wkb)
+		got = d.AsGeometry()
+	case TypeMultiLineString:
+		var d MultiLineString
+		if dirty {
+			d = fill("MULTILINESTRING((0 0,1 1))").MustAsMultiLineString()
+		}
+		scanErr = d.Scan(wkb)
+		got = d.AsGeometry()
+	case TypeMultiPolygon:
+		var d MultiPolygon
+		if dirty {
+			d = fill("MULTIPOLYGON(((0 0,0 1,1 0,0 0)))").MustAsMultiPolygon()
+		}
+		scanErr = d.Scan(wkb)
+		got = d.AsGeometry()
+	default:
+		var d GeometryCollection
+		if dirty {
+			d = fill("GEOMETRYCOLLECTION(POINT(1 2))").MustAsGeometryCollection()
+		}
+		scanErr = d.Scan(wkb)
+		got = d.AsGeometry()
+	}
+	match := src.Type() == dst
+	vfAssert((scanErr == nil) == match, "Scan into a concrete type is accepted exactly when the type matches, also for EMPTY geometries")
+	if match {
+		vfAssert(vfGeomBits(got, src), "the destination becomes the scanned geometry: coordinate type and empty members kept, old contents gone")
+		vfReach("accepted")
+	} else {
+		vfReach("refused")
+	}
+}
